@@ -34,6 +34,10 @@ pub enum Step {
     Build { ix: usize, n_trees: Option<usize>, split_after: Option<usize>, rng_seed: u64 },
     /// build with the cancel callback answering true from its k-th poll; followed by an abort
     BuildCancelled { ix: usize, k: u64, rng_seed: u64 },
+    /// build through a writer typed with the layout-compatible sibling metric (Euclidean <-> Manhattan,
+    /// quantised Euclidean <-> quantised Manhattan) without prepare_changing_distance: the index is then
+    /// built with the sibling metric. For metrics without a sibling this is an ordinary build.
+    BuildAs { ix: usize, rng_seed: u64 },
     ChangeMetric { ix: usize, to: Metric },
     Commit,
     Abort,
@@ -53,6 +57,7 @@ impl Step {
             | Step::Clear { ix }
             | Step::Build { ix, .. }
             | Step::BuildCancelled { ix, .. }
+            | Step::BuildAs { ix, .. }
             | Step::ChangeMetric { ix, .. } => Some(*ix),
             Step::Commit | Step::Abort => None,
         }
@@ -70,6 +75,7 @@ impl Step {
             Step::Clear { .. } => "clear",
             Step::Build { .. } => "build",
             Step::BuildCancelled { .. } => "build_cancelled",
+            Step::BuildAs { .. } => "build_as_sibling",
             Step::ChangeMetric { .. } => "change_metric",
             Step::Commit => "commit",
             Step::Abort => "abort",
@@ -499,7 +505,18 @@ pub fn run_script(spec: &ScriptSpec, cfg: &ScriptCfg, append_as_add: bool, stats
                 st[ix].prev_trees = 0;
                 st[ix].unconstrained = was_empty;
             }
-            Step::Build { rng_seed, .. } | Step::BuildCancelled { rng_seed, .. } => {
+            Step::Build { rng_seed, .. } | Step::BuildCancelled { rng_seed, .. } | Step::BuildAs { rng_seed, .. } => {
+                let metric = if matches!(step, Step::BuildAs { .. }) {
+                    match metric {
+                        Metric::Euclidean => Metric::Manhattan,
+                        Metric::Manhattan => Metric::Euclidean,
+                        Metric::BqEuclidean => Metric::BqManhattan,
+                        Metric::BqManhattan => Metric::BqEuclidean,
+                        m => m,
+                    }
+                } else {
+                    metric
+                };
                 let (n_trees, split_after) = match &step {
                     Step::Build { n_trees, split_after, .. } => (*n_trees, *split_after),
                     _ => (None, None),
@@ -514,6 +531,10 @@ pub fn run_script(spec: &ScriptSpec, cfg: &ScriptCfg, append_as_add: bool, stats
                 });
                 match out {
                     BuildOutcome::Ok { .. } => {
+                        if st[ix].metric != metric {
+                            stats.bump("built_as_sibling_metric");
+                        }
+                        st[ix].metric = metric;
                         st[ix].built = Some(metric);
                         st[ix].stale = false;
                         st[ix].unconstrained = false;
@@ -746,8 +767,8 @@ pub struct ScriptGen {
     pub classes: Vec<ValueClass>,
     pub steps: (usize, usize),
     /// weights: add, append, append_high, del, del_absent, add_badlen, append_badlen, query_badlen, clear, build,
-    /// build_cancelled, change_metric, commit, abort
-    pub weights: [u32; 14],
+    /// build_cancelled, change_metric, commit, abort, build_as_sibling
+    pub weights: [u32; 15],
     pub id_pool: (usize, usize),
     pub split_after: Vec<Option<usize>>,
     pub n_trees: Vec<Option<usize>>,
@@ -835,6 +856,7 @@ pub fn script(g: &ScriptGen) -> BoxedStrategy<ScriptSpec> {
                 push(w[11], (ixs.clone(), select(metrics)).prop_map(|(ix, to)| Step::ChangeMetric { ix, to }).boxed());
                 push(w[12], Just(Step::Commit).boxed());
                 push(w[13], Just(Step::Abort).boxed());
+                push(w[14], (ixs.clone(), any::<u64>()).prop_map(|(ix, rng_seed)| Step::BuildAs { ix, rng_seed }).boxed());
                 let step = proptest::strategy::Union::new_weighted(arms);
                 (idx, vec(step, g.steps.0..=g.steps.1)).prop_map(|(indexes, steps)| ScriptSpec { indexes, steps })
             })
